@@ -4,7 +4,7 @@
           (Model/Gate.v: the send gate);
    tag 1: the opening handshake of the websocket transport over a chain of redirects. *)
 From Coq Require Import List ZArith NArith Bool.
-From XV Require Import Lib.Sx Model.Session Model.Gate Corr.RunSession.
+From XV Require Import Lib.Sx Model.Session Model.Gate Model.TlsPolicy Corr.RunSession.
 Import ListNotations.
 Open Scope Z_scope.
 
@@ -29,14 +29,58 @@ Fixpoint zip_plans (cs : list conn) (pls : list plan) : list (conn * plan) :=
   | c :: cs' => (c, hd {| pl_during := []; pl_after := O; pl_rduring := []; pl_rafter := O |} pls) :: zip_plans cs' (tl pls)
   end.
 
-Definition run_gate (y plans : sx) : sx :=
-  match dec_input y, as_list dec_plan plans with
-  | Some (cfg, sme, cs, _), Some pls =>
-      SL [run_session y;
-          (* per connection: what became of the sends; and, when Insecure is off, what the server received
-             outside TLS besides stream headers, <starttls/> and the closing tag: nothing *)
-          SL (map (fun rs => SL [SL (map sres_sx rs); SS []]) (gate_conns cfg (fresh sme) gate0 (zip_plans cs pls)))]
-  | _, _ => decode_error
+(* the TLS configuration of the client and, per connection, what crypto/x509 says about the
+   certificate the server presents: the MODEL decides the outcome of StartTLS from them
+   (TlsPolicy.start_tls) -- the bit the harness computed on its own is not used *)
+Definition dec_cert (x : sx) : option cert :=
+  match x with
+  | SL [tr; ns] => do tr' <- as_b tr; do ns' <- as_list as_s ns; Some {| c_trusted := tr'; c_names := ns' |}
+  | _ => None
+  end.
+Definition dec_tlsdata (x : sx) : option (tlsconf * list cert) :=
+  match x with
+  | SL [sk; SS sn; SS dom; cs] =>
+      do sk' <- as_b sk; do cs' <- as_list dec_cert cs;
+      Some ({| t_skip := sk'; t_servername := sn; t_domain := dom |}, cs')
+  | _ => None
+  end.
+Fixpoint decide_tls (t : tlsconf) (cs : list conn) (certs : list cert) : list conn :=
+  match cs, certs with
+  | c :: cs', ct :: certs' =>
+      {| k_dial := k_dial c; k_tls := start_tls t ct; k_script := k_script c; k_traffic := k_traffic c |}
+      :: decide_tls t cs' certs'
+  | _, _ => cs
+  end.
+
+(* per connection: the flags the code reads, against the real channel: isSecure claiming a TLS that was
+   not established on this connection; after a successful negotiation, Session.TlsEnabled differing from
+   whether the session runs over TLS *)
+Fixpoint flags_sx (rs : list (list out * result * persist)) : list (sx * sx) :=
+  match rs with
+  | [] => []
+  | (w, r, p) :: rs' =>
+      (SB (stale_secure w p),
+       SB (match r with Ok => xorb (p_tls_enabled p) (existsb o_tls w) | Err _ _ => false end)) :: flags_sx rs'
+  end.
+
+Fixpoint zip_out (gs : list (list sres)) (fl : list (sx * sx)) : list sx :=
+  match gs with
+  | [] => []
+  | rs :: gs' =>
+      let '(a, b) := hd (SB false, SB false) fl in
+      (* what became of the sends; what the server received outside TLS besides stream headers,
+         <starttls/> and the closing tag when Insecure is off: nothing; the two flag checks *)
+      SL [SL (map sres_sx rs); SS []; a; b] :: zip_out gs' (tl fl)
+  end.
+
+Definition run_gate (y plans tlsdata : sx) : sx :=
+  match dec_input y, as_list dec_plan plans, dec_tlsdata tlsdata with
+  | Some (cfg, sme, cs0, sbs), Some pls, Some (t, certs) =>
+      let cs := decide_tls t cs0 certs in
+      SL [run_typed (cfg, sme, cs, sbs);
+          SL (zip_out (gate_conns cfg (fresh sme) gate0 (zip_plans cs pls))
+                      (flags_sx (run_conns cfg (fresh sme) cs)))]
+  | _, _, _ => decode_error
   end.
 
 Definition dec_scheme (x : sx) : option scheme :=
@@ -55,7 +99,7 @@ Definition run_ws (ins addr reds : sx) : sx :=
 
 Definition run_C04 (x : sx) : sx :=
   match x with
-  | SL [SZ 0; y; plans] => run_gate y plans
+  | SL [SZ 0; y; plans; tlsdata] => run_gate y plans tlsdata
   | SL [SZ 1; ins; addr; reds] => run_ws ins addr reds
   | _ => decode_error
   end.
